@@ -4,6 +4,8 @@ import JSight.CheckerComplete
 import JSight.CheckerLayout
 import JSight.CheckerLit
 import JSight.BridgeCK
+import JSight.BridgeCK2Types
+import JSight.BridgeCK2
 /-!
 # C04 — Check accepts a schema only if its own EXAMPLE obeys its rules
 
@@ -306,5 +308,165 @@ def goodEx : CN := .arr [litI "5" [.min (sb "1") false]] false false
 example : codeOfA (checkA (some goodEx) []) = none ∧ isUnsupported (checkA (some goodEx) []) = false
     ∧ checkC (some goodEx) [] = .ok := by decide +kernel
 end BridgeEx
+
+
+/-! ### Bridge (A)∩(C), second part
+
+`BridgeCK2Order.lean` (the visiting order), `BridgeCK2NoRef.lean` / `BridgeCK2Types.lean` (the reference-free,
+validator-free class, any type table), `BridgeCK2.lean` (the class of `C01_text_level`; the text-level pipeline with
+(C)'s checker). -/
+
+open BridgeCK in
+/-- **the unrestricted statement of the first part is false** — on a `CN` tree that `compileNode` never builds: a literal
+node `5` with a `minLength` validator whose compatibility flag says "compatible". (A) trusts the flag and reports the
+validator (603), (C) recomputes the compatibility from the dumped constraints (1117). `compileNode` computes the flag
+from the constraints (`bFinish`), so the statement has to be about COMPILED trees: `C04_models_agree_compiled_full`. -/
+theorem C04_models_agree_full_false : ¬ C04_models_agree_full := by
+  intro hfull
+  have h := hfull (some wBad) []
+  rw [wBad_facts.1] at h
+  have h2 := h wBad_facts.2.2
+  rw [wBad_facts.2.1] at h2
+  exact absurd h2 (by decide)
+
+open BridgeCK in
+/-- a second family outside which the unrestricted statement fails (also never built by `compileNode`): a named type
+whose root is an `any` node of JSON type `mixed`, referenced by a node with an EXAMPLE — 1301 in (A), code 1 in (C) -/
+theorem C04_models_agree_full_false_any :
+    checkC (some wAnyRoot) wAnyTs = .err 1 0 0 none ∧ codeOfA (checkA (some wAnyRoot) wAnyTs) = some 1301 ∧
+      isUnsupported (checkA (some wAnyRoot) wAnyTs) = false := wAny_facts
+
+open BridgeCK in
+/-- what remains to be proved — exactly what `vh bridge-models` (component `C`) samples: the agreement on every tree
+that `Compile.compileNode` BUILDS (root and every named type the compiled tree of some node table), whenever neither
+side runs out of fuel. PROVED for the class of `C04_models_agree` (which is stated on trees, compiled or not); open for
+nodes with an EXAMPLE and a types list, or-shortcuts and type aliases (the reference-following loops). -/
+def C04_models_agree_compiled_full : Prop :=
+  ∀ (root : Option Compile.CN) (ts : Compile.Types),
+    (∀ r, root = some r → ∃ tbl opt fuel i p o, Compile.compileNode tbl opt fuel i p = .ok (r, o)) →
+    (∀ t ∈ ts, ∃ tbl opt fuel i p o, Compile.compileNode tbl opt fuel i p = .ok (t.2, o)) →
+    match resOf (checkC root ts) with
+    | none => True
+    | some c => isUnsupported (checkA root ts) = false → codeOfA (checkA root ts) = codeOfA c
+
+open BridgeCK in
+/-- **C04_sort_names_is_typeGoesFirst**: (A) visits the named types in the order of Lean's `String <`
+(`Compile.sortNames` = `sort.Strings`), (C) in the order of `CK.typeGoesFirst` (bytewise `<`, fix F-34). On type names
+that occur — pairwise different, named (`@…`), every character one byte (ASCII type names are) — the comparison is
+the same function and the two visits are the same list of entries. -/
+theorem C04_sort_names_is_typeGoesFirst :
+    (∀ a b : String, byteChars a → byteChars b → Compile.strLt a b = CK.bytesLt (name a) (name b)) ∧
+    (∀ ts : Compile.Types, (ts.map (·.1)).Nodup → (∀ t ∈ ts, byteChars t.1 ∧ CK.isUnnamed (name t.1) = false) →
+      CK.sortTypes (ts.map typeEntry) = (sortTs ts).map typeEntry ∧
+      (sortTs ts).map (·.1) = Compile.sortNames (ts.map (·.1)) ∧
+      (CK.sortTypes (ts.map typeEntry)).map (·.name) = (Compile.sortNames (ts.map (·.1))).map name) :=
+  ⟨strLt_bytesLt, fun ts hn hb => ⟨sort_entries ts hn hb, sortTs_names ts, sort_agree ts hn hb⟩⟩
+
+open BridgeCK in
+/-- **C04_models_agree** (the reference-free class: literal nodes WITH their validators — the EXAMPLE against its own
+rules: min / max / exclusive, precision, minLength / maxLength, enum, regex, const, the formats but `email`; of a
+guessable kind, flag exact — or flagged incompatible; `any` nodes; TYPE SHORTCUTS `@t` (a node whose types list is its
+whole content: every name defined, else 1302); arrays; objects with KEY SHORTCUTS (`@k : …`: the key
+type defined — 1302 — and a string — 1304 —, key by key) and every `additionalProperties` mode incl. `"@T"`; nullable;
+the compatibility flags; ANY type table of such trees under pairwise different, named,
+single-byte names; with or without root): `checkA root ts` (`Compile`'s CheckRootSchema) = `CK.checkSchema noOracles
+(dumpOf root ts)` read back by `resOf` — the same verdict and the same first error CODE (1117, 1302, 1304, and the validator
+codes 602, 603, 610 … 616, 0: (A) keeps the failing validator of least `constraint.Type`, (C) sorts by it and stops at the
+first), found at the same node of the same tree in the same visiting order; on this class neither side runs out of
+fuel (the equation excludes `crash` and `unsupported`); the root of a named type is not itself a type shortcut
+(`notRef`). Outside: a node WITH an example and a types list (`1 // {type: "@t"}`, `or` rules), or-shortcuts `@a | @b`
+(their unnamed types), a type that is an alias of another — the reference-following loops `collectAllowedJsonTypes` /
+`buildList` / `actualRootType` —, see `C04_models_agree_compiled_full`. -/
+theorem C04_models_agree (root : Option Compile.CN) (ts : Compile.Types) (hroot : ∀ r, root = some r → nr r = true)
+    (hts : ∀ t ∈ ts, nr t.2 = true ∧ byteChars t.1 ∧ CK.isUnnamed (name t.1) = false ∧ notRef t.2 = true)
+    (hnd : (ts.map (·.1)).Nodup) :
+    resOf (checkC root ts) = some (checkA root ts) :=
+  agree_noref root ts hroot hts hnd
+
+open BridgeCK in
+/-- one node, any (C)-table whose entries are the dumps of (A)'s (`EnvRel`), any fuel ≥ 1: (C)'s `checkNode` on the dump
+of the tree is (A)'s `checkNode` (first error in the same traversal order) -/
+theorem C04_models_agree_node (ts : Compile.Types) (env : CK.Env) (fuel : Nat) (hE : EnvRel ts env)
+    (hT : ∀ n cn, Compile.lookupT ts n = some cn → nr cn = true ∧ notRef cn = true) (hf : ∃ f, fuel = f + 1) (cn : Compile.CN)
+    (h : nr cn = true) :
+    CK.checkNode Compile.noOracles env (dumpNode cn) = panicOf (Compile.checkNode ts fuel cn) :=
+  node_agree ts env fuel hE hT hf cn h
+
+open BridgeCK in
+/-- the class of `C01_text_level` (the compiled tree of a plain-JSON value, no types): both checkers accept -/
+theorem C04_models_agree_plain (opt : Bool) (v : Lay.JV) (hg : E2E.guessable v = true) :
+    resOf (checkC (some (E2E.cnOf opt v)) []) = some (checkA (some (E2E.cnOf opt v)) []) :=
+  agree_plain opt v hg
+
+/-- **the pipeline may use (C)'s checker**: `E2E.validateTextCK` is `E2E.validateText` with `Compile.check` replaced by
+`CK.checkSchema ∘ dumpOf` (then `CheckRecursion`); wherever the two checkers agree on the compiled schema (the
+hypothesis is `C04_models_agree` / `C04_models_agree_plain` on their classes) the two pipelines give the same outcome,
+so `C04_checker_sound / _complete` speak about the checker stage of the text-level pipeline -/
+theorem C04_pipeline_with_checker_model (root : List UInt8) (types : List (String × List UInt8)) (doc : List UInt8)
+    (opt : Bool)
+    (hagree : ∀ r ts, E2E.loadSchema root opt = .ok r → E2E.loadTypes types = .ok ts →
+      E2E.checkCK r ts = some (BridgeCK.checkA r ts)) :
+    E2E.validateTextCK root types doc opt = E2E.validateText root types doc opt :=
+  E2E.validateTextCK_eq root types doc opt hagree
+
+/-- **C01_text_level_with_checker_model**: the text-level theorem of C01, word for word, for the pipeline whose checker
+stage is the checker model of C04 -/
+theorem C01_text_level_with_checker_model (opt : Bool) (t : Lay.BTree) (hv : t.Valid) (hk : t.value.KeysNodup)
+    (hg : E2E.guessable t.value = true) (w0 w1 : List Lay.LI) (h0 : Lay.ValidL w0) (h1 : Lay.ValidL w1)
+    (fin : List UInt8) (hf : Lay.IsFin fin)
+    (d : VPos.T UInt8) (hd : (VPos.toJA JsonScan.classify d).Valid) (ws0 ws1 : List UInt8)
+    (hw0 : JsonScan.IsWs (ws0.map JsonScan.classify)) (hw1 : JsonScan.IsWs (ws1.map JsonScan.classify)) :
+    E2E.validateTextCK (Lay.docTextF w0 t w1 fin) [] (ws0 ++ (d.render VPos.byteSym ++ ws1)) opt
+      = if VN.shape E2E.kindOKTok (E2E.schemaOf opt t.value) (E2E.docOf d) then .acc else .rej :=
+  E2E.text_level_ck opt t hv hk hg w0 w1 h0 h1 fin hf d hd ws0 ws1 hw0 hw1
+
+namespace BridgeEx2
+open BridgeCK Compile
+def litS (tok : String) (k : Rules.Kind) : CN := .lit { kind := k, ex := sb tok, nul := false, rules := [] } false
+/-- root `{ "a": 1, "b": [true] } // {additionalProperties: "@zz"}` with the types `@b = {} (flagged incompatible)`,
+`@a = "x"`: (A) and (C) both stop at the root (1302: `@zz` is not defined); without the rule both visit `@a` first and
+then stop at `@b` (1117) -/
+def tsEx : Types := [("@b", .obj [] .absent false true), ("@a", litS "\"x\"" .s)]
+def rootEx (add : Add) : CN :=
+  .obj [("a", false, true, false, litS "1" .i), ("b", false, true, false, .arr [litS "true" .b] true false)] add false false
+/-- non-vacuity of `C04_models_agree` / `C04_sort_names_is_typeGoesFirst`: the hypotheses hold, errors on both sides -/
+example : nr (rootEx (.type "@zz")) = true ∧
+    (∀ t ∈ tsEx, nr t.2 = true ∧ byteChars t.1 ∧ CK.isUnnamed (name t.1) = false ∧ notRef t.2 = true) ∧
+    (tsEx.map (·.1)).Nodup := by decide +kernel
+example : checkC (some (rootEx (.type "@zz"))) tsEx = .err 1302 0 0 none ∧
+    codeOfA (checkA (some (rootEx (.type "@zz"))) tsEx) = some 1302 := by decide +kernel
+example : checkC (some (rootEx .absent)) tsEx = .err 1117 0 0 (some (name "@b")) ∧
+    codeOfA (checkA (some (rootEx .absent)) tsEx) = some 1117 ∧ (sortTs tsEx).map (·.1) = ["@a", "@b"] := by decide +kernel
+example : checkC (some (rootEx (.type "@a"))) [("@a", litS "\"x\"" .s)] = .ok ∧
+    codeOfA (checkA (some (rootEx (.type "@a"))) [("@a", litS "\"x\"" .s)]) = none ∧
+    isUnsupported (checkA (some (rootEx (.type "@a"))) [("@a", litS "\"x\"" .s)]) = false := by decide +kernel
+/-- the instance of the theorem -/
+example : resOf (checkC (some (rootEx .absent)) tsEx) = some (checkA (some (rootEx .absent)) tsEx) :=
+  C04_models_agree _ _ (fun r h => by cases h; decide +kernel) (by decide +kernel) (by decide +kernel)
+/-- `[ 5 // {min: 7, max: 3} ]` and `"ab" // {minLength: 3, enum: ["x"]}`: the EXAMPLE fails its validators — the one of
+least constraint type wins on both sides (602 before 602; 603 before 610) -/
+def badMin : CN := .arr [.lit { kind := .i, ex := sb "5", nul := false, rules := [.max (sb "3") false, .min (sb "7") false] } false] false false
+def badLen : CN := .lit { kind := .s, ex := sb "\"ab\"", nul := true, rules := [.enum [sb "\"x\""], .minLength 3] } false
+example : nr badMin = true ∧ nr badLen = true := by decide +kernel
+example : checkC (some badMin) [] = .err 602 0 0 none ∧ codeOfA (checkA (some badMin) []) = some 602 ∧
+    checkC (some badLen) [] = .err 603 0 0 none ∧ codeOfA (checkA (some badLen) []) = some 603 := by decide +kernel
+example : resOf (checkC (some badLen) tsEx) = some (checkA (some badLen) tsEx) :=
+  C04_models_agree _ _ (fun r h => by cases h; decide +kernel) (by decide +kernel) (by decide +kernel)
+/-- `{ @a: 1, @b: 2 }` with `@a = "x"`, `@b = {}`: the second key type is not a string — 1304 on both sides; with an
+undefined `@zz` first: 1302 -/
+def keysObj (k1 k2 : String) : CN := .obj [(k1, true, true, false, litS "1" .i), (k2, true, true, false, litS "2" .i)] .absent false false
+example : nr (keysObj "a" "b") = true ∧ nr (keysObj "zz" "b") = true := by decide +kernel
+example : checkC (some (keysObj "a" "b")) tsEx = .err 1304 0 0 none ∧ codeOfA (checkA (some (keysObj "a" "b")) tsEx) = some 1304 ∧
+    checkC (some (keysObj "zz" "b")) tsEx = .err 1302 0 0 none ∧ codeOfA (checkA (some (keysObj "zz" "b")) tsEx) = some 1302 := by
+  decide +kernel
+/-- `[ @a, @nope ]`: the second item names an undefined type — 1302 on both sides; `[ @a, @b ]` is accepted -/
+def refsArr (n : String) : CN := .arr [.ref ["@a"] false .mixed none false, .ref [n] true .mixed none false] false false
+example : nr (refsArr "@nope") = true ∧ checkC (some (refsArr "@nope")) tsEx = .err 1302 0 0 none ∧
+    codeOfA (checkA (some (refsArr "@nope")) tsEx) = some 1302 := by decide +kernel
+example : nr (refsArr "@a") = true ∧ checkC (some (refsArr "@a")) [("@a", litS "\"x\"" .s)] = .ok ∧
+    codeOfA (checkA (some (refsArr "@a")) [("@a", litS "\"x\"" .s)]) = none := by decide +kernel
+/-- non-vacuity of `C04_models_agree_plain`: `[1, "a"]` -/
+example : E2E.guessable (.arr [.lit (sb "1"), .lit (sb "\"a\"")]) = true := by decide +kernel
+end BridgeEx2
 
 end Props.C04
